@@ -178,3 +178,27 @@ def h_sites(flag: bool, which: int) -> bool:
     if flag:
         return out != "experimental"
     return out == "experimental"
+
+
+def h_sequence(which: int, first: bool) -> bool:
+    """
+    pre: 0 <= which < NPROGS
+    post: _
+    """
+    # one program checked under a sequence of flag settings in one session (enabled, disabled, enabled, disabled or the reverse):
+    # the gate must answer according to the setting in force at each check — nothing learnt while enabled may open it later
+    cwhich = 0
+    for i in range(NPROGS):
+        if which == i:
+            cwhich = i
+    cfirst = True if first else False
+    with NoTracing():
+        outs = []
+        try:
+            for k in range(4):
+                fl = cfirst if k % 2 == 0 else (not cfirst)
+                E.EXPERIMENTAL_FEATURES_ENABLED = fl
+                outs.append((fl, _outcome(PROGS[cwhich])))
+        finally:
+            E.EXPERIMENTAL_FEATURES_ENABLED = False
+    return all((o != "experimental") if fl else (o == "experimental") for fl, o in outs)
